@@ -179,7 +179,7 @@ func WorkerMain(t *testing.T) {
 			sum.Samples = append(sum.Samples, r.Sample)
 		}
 		// determinism canary: re-execute and compare
-		if canaryEvery > 0 && i%canaryEvery == 0 && !r.Failed() {
+		if sc := FindScenario(prop, r.Scenario); canaryEvery > 0 && i%canaryEvery == 0 && !r.Failed() && (sc == nil || !sc.Loose) {
 			r2 := Execute(prop, seed, no, NewReplay(tp.Rec, true))
 			sum.Canaries++
 			if r2.T.Diverged != "" || r2.T.Hash() != tp.Hash() || r2.Failed() != r.Failed() {
@@ -371,6 +371,10 @@ func replayMain(out *outWriter, prop, path string) {
 		viols = append(viols, v.Oracle+"|"+v.Key)
 	}
 	sort.Strings(viols)
-	out.emit(map[string]any{"type": "replay", "hit": r.HasViol(rf.Oracle, rf.Key), "diverged": r.T.Diverged, "viols": viols,
+	loose := false
+	if sc := FindScenario(prop, r.Scenario); sc != nil {
+		loose = sc.Loose
+	}
+	out.emit(map[string]any{"type": "replay", "hit": r.HasViol(rf.Oracle, rf.Key), "diverged": r.T.Diverged, "viols": viols, "loose": loose,
 		"oracle": rf.Oracle, "key": rf.Key, "trace": r.Trace})
 }
